@@ -36,10 +36,12 @@ var opKinds = []string{
 	"multi", "multi", "multi",
 	"rel", "rel", "rel", "rel", "rel",
 	"cancel", "cancel", "cancel",
-	"nested", "nestedtry", "relstale",
+	"nested", "nestedtry", "relstale", "expire",
 }
 
-var dataSizes = []int64{0, 1, 1000, 4194304, 4194305, 10 << 20, 95 << 20, 100 << 20}
+// sizes around reqmeta's constants: the 4 MiB small limit, the 90 % "large" cutoff of 100 MiB (94371840), equal
+// sizes (every value is drawn repeatedly), zero and negative (reghttp: d.Size - chunkSize for an unknown size)
+var dataSizes = []int64{0, 0, 1, 1000, 4194304, 4194304, 4194305, 10 << 20, 94371839, 94371840, 95 << 20, 100 << 20, 100 << 20, -1, -4194304, 1 << 62}
 
 // genOp draws one op of a given kind ("" = any kind).
 func genOp(t *rapid.T, kind string, nq, nw int, qChoices []int) Op {
@@ -50,7 +52,11 @@ func genOp(t *rapid.T, kind string, nq, nw int, qChoices []int) Op {
 	switch op.K {
 	case "acq", "try", "nested", "nestedtry":
 		op.Q = rapid.IntRange(0, nq-1).Draw(t, "q")
+		if op.K == "acq" || op.K == "try" {
+			op.X = rapid.IntRange(0, 5).Draw(t, "x") == 0
+		}
 	case "multi":
+		op.X = rapid.IntRange(0, 7).Draw(t, "x") == 0
 		min := 1
 		if nq > 1 {
 			min = 2
@@ -58,9 +64,13 @@ func genOp(t *rapid.T, kind string, nq, nw int, qChoices []int) Op {
 		op.Qs = rapid.SliceOfN(rapid.SampledFrom(qChoices), min, 4).Draw(t, "qs")
 	case "rel", "relstale":
 		op.H = rapid.IntRange(0, 3).Draw(t, "h")
+		if op.K == "rel" {
+			op.G = rapid.IntRange(0, 5).Draw(t, "g") == 3
+		}
 	case "cancel":
 		op.W = rapid.IntRange(0, nw-1).Draw(t, "w")
 		op.P = rapid.IntRange(0, 3).Draw(t, "p") == 0
+		op.A = rapid.IntRange(0, 19).Draw(t, "a") == 7
 	}
 	switch op.K {
 	case "acq", "try", "multi", "nested", "nestedtry":
@@ -89,12 +99,41 @@ func genSection(nq, nw int) *rapid.Generator[[]Op] {
 			}
 			return ops
 		}
-		first := rapid.SampledFrom([]string{"acq", "acq", "acq", "multi", "multi", "try"}).Draw(t, "first")
+		first := rapid.SampledFrom([]string{"acq", "acq", "acq", "acq", "multi", "multi", "multi", "try", "hog"}).Draw(t, "first")
+		if first == "hog" {
+			// take several slots of one queue without blocking, keep them for a while: the way to have two or more
+			// waiters queued behind two or more active entries (what reqmeta.DataNext distinguishes)
+			op := genOp(t, "try", nq, nw, qChoices)
+			n := rapid.IntRange(2, 3).Draw(t, "hogn")
+			for i := 0; i < n; i++ {
+				o := op
+				o.DK = rapid.IntRange(0, 4).Draw(t, "dk")
+				o.DS = rapid.SampledFrom(dataSizes).Draw(t, "ds")
+				ops = append(ops, o)
+			}
+			ops = append(ops, genOp(t, "cancel", nq, nw, qChoices))
+			for i := 0; i < n; i++ {
+				ops = append(ops, Op{K: "rel", H: 0})
+			}
+			return ops
+		}
 		ops = append(ops, genOp(t, first, nq, nw, qChoices))
 		n := rapid.IntRange(0, 2).Draw(t, "inner")
 		for i := 0; i < n; i++ {
-			k := rapid.SampledFrom([]string{"cancel", "cancel", "cancel", "nested", "nestedtry", "try", "acq", "relstale"}).Draw(t, "ik")
-			ops = append(ops, genOp(t, k, nq, nw, qChoices))
+			kinds := []string{"cancel", "cancel", "cancel", "nested", "nestedtry", "try", "acq", "relstale"}
+			if first == "multi" {
+				kinds = []string{"cancel", "nested", "nestedtry", "xacq", "xacq", "xtry", "xmulti", "xmulti"}
+			}
+			k := rapid.SampledFrom(kinds).Draw(t, "ik")
+			forceX := false
+			if k[0] == 'x' {
+				k, forceX = k[1:], true
+			}
+			o := genOp(t, k, nq, nw, qChoices)
+			if forceX {
+				o.X = true
+			}
+			ops = append(ops, o)
 		}
 		if rapid.IntRange(0, 7).Draw(t, "norel") != 0 { // otherwise the epilogue releases it
 			ops = append(ops, genOp(t, "rel", nq, nw, qChoices))
@@ -103,22 +142,71 @@ func genSection(nq, nw int) *rapid.Generator[[]Op] {
 	})
 }
 
-func gen(t *rapid.T, engine string) Case {
-	c := Case{Engine: engine}
-	if rapid.IntRange(0, 2).Draw(t, "elem") == 0 {
-		c.Elem = "empty"
+// genPriorityCase: one reqmeta.Data queue with limit 3..5 and the size-aware priority function, one worker that takes
+// all slots without blocking and gives them back one by one, and 3-4 workers queueing with entries of all kinds and
+// sizes: the priority function is called with several active and several queued entries.
+func genPriorityCase(t *rapid.T, engine string) Case {
+	c := Case{Engine: engine, Tmpl: "priority"}
+	max := rapid.SampledFrom([]int{3, 3, 4, 5}).Draw(t, "pmax")
+	c.Queues = []QueueCfg{{Max: max, Next: rapid.SampledFrom([]string{"data", "data", "data", "last", "big", "neg"}).Draw(t, "pnext")}}
+	nw := rapid.IntRange(4, 5).Draw(t, "nw")
+	og := rapid.Custom(func(t *rapid.T) Op { return genOp(t, "", 1, nw, []int{0, 0, 0, -1}) })
+	var hog []Op
+	for i := 0; i < max; i++ {
+		hog = append(hog, Op{K: "try", DK: rapid.IntRange(0, 4).Draw(t, "dk"), DS: rapid.SampledFrom(dataSizes).Draw(t, "ds")})
 	}
+	for i := 0; i < max; i++ {
+		if rapid.IntRange(0, 3).Draw(t, "hc") == 1 {
+			hog = append(hog, Op{K: "cancel", W: rapid.IntRange(1, nw-1).Draw(t, "w")})
+		}
+		hog = append(hog, Op{K: "rel", H: rapid.IntRange(0, 3).Draw(t, "h")})
+	}
+	c.Workers = append(c.Workers, hog)
+	for i := 1; i < nw; i++ {
+		p := []Op{{K: "acq", DK: rapid.IntRange(0, 4).Draw(t, "dk"), DS: rapid.SampledFrom(dataSizes).Draw(t, "ds")}}
+		p = append(p, rapid.SliceOfN(og, 0, 3).Draw(t, "tail")...)
+		c.Workers = append(c.Workers, p)
+	}
+	if engine == "free" {
+		c.Procs = rapid.SampledFrom([]int{1, 2, 4, 16}).Draw(t, "procs")
+		return c
+	}
+	// let the hog take its slots first, then interleave freely
+	c.Schedule = make([]int, max+1)
+	for i := 1; i < nw; i++ {
+		c.Schedule = append(c.Schedule, 2, 0) // start waiter i, run it into the queue
+	}
+	c.Schedule = append(c.Schedule, rapid.SliceOfN(rapid.SampledFrom([]int{0, 0, 1, 2, 3, 4, 5}), 0, 120).Draw(t, "schedule")...)
+	return c
+}
+
+func gen(t *rapid.T, engine string) Case {
+	if tv := rapid.IntRange(0, 11).Draw(t, "template"); tv == 5 {
+		return genPriorityCase(t, engine)
+	}
+	c := Case{Engine: engine}
+	// element types: all reqmeta.Data (reghttp/ocidir/blob copy), all struct{} (regsync/regbot), or mixed per queue
+	elemMode := rapid.SampledFrom([]int{0, 0, 0, 0, 1, 1, 1, 2, 2}).Draw(t, "elemmode")
 	nq := rapid.SampledFrom([]int{1, 1, 2, 2, 2, 3}).Draw(t, "nq")
 	for i := 0; i < nq; i++ {
-		c.Queues = append(c.Queues, QueueCfg{
-			Max:  rapid.SampledFrom([]int{1, 1, 1, 2, 2, 3}).Draw(t, "max"),
-			Next: rapid.SampledFrom([]string{"", "data"}).Draw(t, "next"),
-		})
-	}
-	if c.Elem == "empty" {
-		for i := range c.Queues {
-			c.Queues[i].Next = ""
+		q := QueueCfg{
+			// mostly the small limits that produce contention; 3 = the default of reghttp and ocidir; 0/-1 default to 1
+			Max:  rapid.SampledFrom([]int{1, 1, 1, 1, 1, 1, 1, 1, 2, 2, 2, 2, 2, 3, 3, 3, 0, -1, 4, 5, 16, 64}).Draw(t, "max"),
+			Next: rapid.SampledFrom([]string{"", "", "", "data", "data", "data", "data", "neg", "big", "last"}).Draw(t, "next"),
 		}
+		switch elemMode {
+		case 1:
+			q.Elem = "empty"
+		case 2:
+			if rapid.Bool().Draw(t, "qelem") {
+				q.Elem = "empty"
+			}
+		}
+		if q.Elem == "empty" && q.Next == "data" {
+			q.Next = "" // regsync/regbot: default priority function
+		}
+		q.Nil = rapid.IntRange(0, 23).Draw(t, "nilq") == 11
+		c.Queues = append(c.Queues, q)
 	}
 	nw := rapid.IntRange(2, 5).Draw(t, "nw")
 	sg := genSection(nq, nw)
@@ -171,19 +259,47 @@ func checkInc(c Case, ev *evid.Collector, runs int) (*evid.Violation, string) {
 	labels := map[string]bool{}
 	add := func(l string) { labels[l] = true }
 	add("engine:" + c.Engine)
-	if c.Elem == "empty" {
-		add("elem:empty-struct")
-	} else {
+	ne, nd := 0, 0
+	for _, q := range c.Queues {
+		if q.Elem == "empty" {
+			ne++
+		} else {
+			nd++
+		}
+		switch {
+		case q.Nil:
+			add("queue:nil")
+		case q.Max <= 0:
+			add("queue:max<=0-defaults-to-1")
+		case q.Max > 3:
+			add("queue:max>3")
+			if q.Max >= 16 {
+				add("queue:max>=16")
+			}
+		}
+		if q.Next != "" && q.Next != "data" {
+			add("next:out-of-range-or-custom-fn")
+		}
+	}
+	switch {
+	case ne == 0:
 		add("elem:reqmeta.Data")
+	case nd == 0:
+		add("elem:empty-struct")
+	default:
+		add("elem:mixed")
 	}
 	add(fmt.Sprintf("queues=%d", len(c.Queues)))
 	add(fmt.Sprintf("workers=%d", len(c.Workers)))
 	for _, q := range c.Queues {
 		if q.Next == "data" {
 			add("next:data")
-		} else {
+		} else if q.Next == "" {
 			add("next:default")
 		}
+	}
+	if c.Tmpl != "" {
+		add("template:" + c.Tmpl)
 	}
 	overlap := staticMultiOverlap(c)
 	if overlap {
